@@ -106,6 +106,9 @@ class Prop(object):
         prim = K.raw(shape.get('prim', 'ed25519a'), K.T0)
         other = K.raw('ed25519b', K.T0)
         subs = [K.raw(n, K.T0) for n in shape.get('subnames', ['cv25519a', 'ecdsa_p256b', 'rsa1024a'])[:shape['nsub']]]
+        if shape.get('kdf'):
+            # ECDH subkeys from a producer that chose other key-derivation parameters than PGPy's per-curve defaults (part of the public-key packet)
+            subs = [dict(x, kdf=tuple(shape['kdf'])) if x['alg'] == 'ecdh' else x for x in subs]
         known = {rkeys.keyid(x): x for x in [prim, other] + subs}
         pbody = rkeys.public_body(prim)
         t = [K.T0 + 100]
@@ -189,7 +192,7 @@ class Prop(object):
                 extras = ('direct',)
             shape = dict(nuid=case['nuid'], nsub=case['nsub'], secret=case['secret'], uat=uat, nself=nself, third=third, revoke_uid=revoke_uid, extras=extras,
                          same_time=same_time, trust=trust, prim=('ed25519a' if idx % 3 else 'ecdsa_p256a') if idx % 5 else 'ecdsa_p256_x0', nonminimal=(idx % 4 == 1),
-                         bigimage=(None, 2, None, 5)[idx % 4] if uat else None)
+                         bigimage=(None, 2, None, 5)[idx % 4] if uat else None, kdf=[None, (10, 9), None, (8, 9), (9, 7)][idx % 5] if idx % 5 else None)
             if idx % 5 == 0:
                 # key material whose point coordinates have leading zero octets (fixed-width fields that an integer round trip would shorten)
                 shape['subnames'] = ['ecdh_p256_x0', 'ecdsa_p521_x0']
